@@ -8,6 +8,7 @@ MODELS = {
     "mutex": "model: parking_lot::Mutex -> flag + UnsafeCell; re-lock = assertion failure",
     "fmt": "stub: alloc::fmt::format -> String::with_capacity + write_fmt (identical output)",
     "memchr": "stub: core::slice::memchr::memchr -> naive loop (identical result)",
+    "lemma-queue": "composition lemma queue-induction (on paper): the empty channel satisfies the acceptance-order invariant and each operation preserves it, so the one-step verdicts extend to histories of any length",
     "kani": "Kani 0.68 MIR->goto translation, CBMC 6.11 symbolic execution, CaDiCaL; dev profile (debug assertions and overflow checks on)",
 }
 
@@ -41,6 +42,33 @@ H("fastrace", "collector::id", "next_id_step", ["C02"],
   sym="generator state (prefix:u32, counter:u32)", bound="one step from every generator state (2^64 states), two successive ids",
   models=("kani", "tls"))
 
+# ---------------------------------------------------------------- queue link (C01, C04, C09)
+QB = ("T=u8; one operation from an arbitrary valid channel state (ring capacity 1..=2, occupancy 0..=cap, overflow list 0..=2 entries (0..=1 before force_send)); "
+      "sender operations with the consumer interleaved (0 or 1 whole try_recv) before every producer push; try_recv (1 call and 3 consecutive calls) against the most general producer (0..=2 pushes and optional death interleaved before pop and before is_abandoned; histories of any length follow by "
+      "induction on the acceptance-order invariant (on paper)")
+QM = ("kani", "ring", "lemma-queue")
+_shapes = [(c, p) for c in (1, 2) for p in (0, 1, 2)]
+for c, p in _shapes:
+    if p < 2:
+      H("fastrace", "util::spsc", f"q_step_force_send_c{c}p{p}", ["C01", "C04", "C09"],
+        sym=f"shape: capacity {c}, overflow list {p}; symbolic: ring occupancy 0..={c}, consumer yield decision before every push", bound=QB, models=QM)
+    H("fastrace", "util::spsc", f"q_step_send_c{c}p{p}", ["C01", "C09"],
+      sym=f"shape: capacity {c}, overflow list {p}; symbolic: ring occupancy 0..={c}, consumer yield decision before every push", bound=QB, models=QM)
+    if p > 0:
+        H("fastrace", "util::spsc", f"q_step_exit_c{c}p{p}", ["C01", "C04", "C09"],
+          sym=f"shape: capacity {c}, overflow list {p}; symbolic: ring occupancy, consumer yield decision before every push of Sender::drop", bound=QB, models=QM)
+H("fastrace", "util::spsc", "q_try_recv_any_producer", ["C01"],
+  sym="capacity 1..=3, occupancy 0..=cap, most general producer: 0..=2 pushes and optional death before pop and before is_abandoned", bound=QB, models=QM)
+H("fastrace", "util::spsc", "q_try_recv_seq3_any_producer", ["C01"],
+  sym="capacity 1..=3, occupancy, most general producer interleaved at the 6 ring accesses of 3 consecutive try_recv calls", bound=QB, models=QM)
+for n, props, sym in [
+    ("q_empty_vs_closed", ["C01"], "none (concrete scenario)"),
+    ("q_cancel_then_finish_on_full_ring_c1", ["C04", "C09"], "none: concrete scenario at capacity 1"),
+    ("q_cancel_then_finish_on_full_ring_c2", ["C04", "C09"], "none: concrete scenario at capacity 2"),
+    ("q_full_send_drops_only_itself", ["C09"], "capacity 1..=3"),
+]:
+    H("fastrace", "util::spsc", n, props, sym=sym, bound=QB, models=QM)
+
 PROPS = {
     "C02": dict(
         design_ref="DESIGN.md §5 C02",
@@ -50,3 +78,6 @@ PROPS = {
                      "the zero id needs prefix=0 and a wrapped counter: assumption, not a finding"],
     ),
 }
+
+for _p, _b in [("C01", QB), ("C04", QB), ("C09", QB)]:
+    PROPS.setdefault(_p, dict(design_ref=f"DESIGN.md §5 {_p}", bounds=_b, not_covered=[]))
